@@ -41,7 +41,7 @@ func (c12) Components() map[string][]string {
 	}
 }
 func (c12) ProbeNames() []string {
-	return []string{"layout-whole", "layout-gpt", "layout-mbr", "blank", "over-stale", "type-fat12", "type-fat16", "type-fat32", "type-ext4", "type-iso9660", "type-squashfs", "create-refused", "boundary-sweep"}
+	return []string{"layout-whole", "layout-gpt", "layout-mbr", "blank", "over-stale", "type-fat12", "type-fat16", "type-fat32", "type-ext4", "type-iso9660", "type-squashfs", "create-refused", "boundary-sweep", "physical-4096-logical-512"}
 }
 func (c12) Budget(tier string) (int, int, int) {
 	if tier == "thorough" {
@@ -58,6 +58,7 @@ func (c12) Gen(r *core.Rng, tier string, idx int) *core.Trace {
 	t.Cfg["layout"] = int64(r.PickW(40, 30, 30))
 	t.Cfg["lss"] = core.PickOf[int64](r, 512, 512, 512, 2048, 4096)
 	t.Cfg["size"] = c12Sizes[r.Intn(len(c12Sizes))] + 512*r.Range(0, 3)
+	t.Cfg["pss4k"] = int64(r.PickW(70, 30))
 	t.Cfg["gptidx"] = core.PickOf[int64](r, 1, 1, 2, 3, 5, 128) // GPT layout: the slot of the (only) partition - tables with gaps
 	if r.Chance(25) {
 		// FAT type boundary sweep: consecutive sector counts around the sizes at which the cluster count crosses
@@ -374,6 +375,12 @@ func (p c12) Exec(t *core.Trace) *core.Result {
 	var err error
 	if pk, pv, loc, _ := core.Guard(func() { dk2, err = diskfs.OpenBackend(img, diskfs.WithSectorSize(diskfs.SectorSize(lss))) }); pk {
 		return fail(len(t.Ops)-1, "panic", "OpenBackend:"+core.PanicClass(pv), loc, fmt.Sprint(pv))
+	}
+	if err == nil && lss == 512 && layout != 0 && t.I("pss4k") == 1 {
+		// a device with 512-byte logical and 4096-byte physical sectors (512e): the table is read with the two
+		// sizes as they are
+		dk2 = &disk.Disk{Backend: img, Size: devSize, LogicalBlocksize: 512, PhysicalBlocksize: 4096, DefaultBlocks: false}
+		res.Probe("physical-4096-logical-512")
 	}
 	if err != nil {
 		return fail(len(t.Ops)-1, "open", "OpenBackend", "diskfs.OpenBackend", err.Error())
